@@ -18,6 +18,8 @@ pub mod encrypt;
 pub mod errors;
 mod noise;
 mod scrypt;
+#[cfg(feature = "verif")]
+pub mod verif;
 
 use orion::hazardous::aead::chacha20poly1305 as chapoly;
 use orion::hazardous::ecc::x25519 as orion_x25519;
@@ -330,6 +332,8 @@ pub(crate) fn chapoly_encrypt_noise(
 /// Returns the ciphertext.
 #[allow(clippy::let_and_return, clippy::redundant_field_names)]
 pub fn chapoly_encrypt_ietf(key: &[u8], nonce: &[u8], plaintext: &[u8], aad: &[u8]) -> Vec<u8> {
+    #[cfg(feature = "verif")]
+    verif::observe_seal(key, nonce, aad, plaintext);
     let nonce = chapoly::Nonce::from_slice(nonce).expect("Nonce must be 12 bytes");
     let mut ct_and_tag = vec![0u8; plaintext.len() + TAG_SIZE];
     let key = chapoly::SecretKey::from_slice(key).expect("Key must be 32 bytes");
@@ -441,6 +445,10 @@ pub fn scrypt(password: &[u8], salt: &[u8], n: u32, r: u32, p: u32, dk_len: usiz
 /// Generates the specified amount of bytes from a CSPRNG
 pub fn secure_random(len: usize) -> Vec<u8> {
     let mut data = vec![0u8; len];
+    #[cfg(feature = "verif")]
+    if verif::fill_entropy(&mut data) {
+        return data;
+    }
     getrandom::fill(&mut data).expect("CSPRNG gen failed");
     data
 }
